@@ -41,6 +41,9 @@ type incarnation struct {
 func copyDir(src, dst string) error {
 	return filepath.Walk(src, func(p string, info os.FileInfo, err error) error {
 		if err != nil {
+			if os.IsNotExist(err) {
+				return nil
+			}
 			return err
 		}
 		rel, _ := filepath.Rel(src, p)
@@ -50,6 +53,9 @@ func copyDir(src, dst string) error {
 		}
 		in, err := os.Open(p)
 		if err != nil {
+			if os.IsNotExist(err) {
+				return nil // deleted while we were copying: a kill in the middle of truncation
+			}
 			return err
 		}
 		defer in.Close()
@@ -193,6 +199,7 @@ func logCrashBody(c *Case, o *Outcome) {
 			o.probe("stop_graceful")
 		case "idle":
 			cur.inc.mode = "idle"
+			synctest.Wait() // the consumer has done whatever the appended entries let it do
 			snapshot()
 			stopOld(cur)
 			o.probe("crash_idle")
